@@ -40,7 +40,8 @@ Definition exn_name (e : exn) : string :=
   match e with
   | EHttp _ | EHttpResp _ => "HTTPException"
   | EUser 1 => "Base" | EUser 2 => "Derived" | EUser 3 => "Unrelated"
-  | EUser 4 => "ValueError" | EUser _ => "RuntimeError"
+  | EUser 4 => "ValueError" | EUser 5 => "FileNotFoundError"
+  | EUser 6 => "TimeoutError" | EUser _ => "RuntimeError"
   | EConn => "ConnectionError" | EExit => "SystemExit"
   | ERespErr => "ResponseError" | ETypeErr => "TypeError"
   end.
